@@ -621,6 +621,12 @@ def accept(R, RID='C01.accept'):
            and isinstance(n.ast.value.value, ast.Call) and n.ast.value.value.args
            and fold(R, n.ast.value.value.args[0], g.ctx) == 2 and g.dominates(n, cons[0])
            and any(fr.kind == 'loop' for fr in n.frames)]
+    if not hdr:
+        # the header awaitable is not built at the yield (kept in a local / field): any suspension point of the frame loop
+        # that precedes the frame construction
+        hdr = [n for n in g.live_nodes() if n.kind == 'stmt' and isinstance(n.ast, ast.Assign)
+               and isinstance(n.ast.value, ast.Yield) and g.dominates(n, cons[0]) and any(fr.kind == 'loop' for fr in n.frames)]
+        hdr = [h for h in hdr if not any(o is not h and g.dominates(o, h) for o in hdr)]         # the first of them
     need(hdr, 'FrameParser.parse: header read not found')
     hdr = [h for h in hdr if not any(o is not h and g.dominates(h, o) for o in hdr)] or hdr     # the one nearest the frame
     # names that carry the payload length: the read count and whatever it is copied from / to
